@@ -3,6 +3,7 @@
 set -e
 cd "$(dirname "$0")"
 mkdir -p build evidence
+gcc -O2 -shared -fPIC -o build/libarena_cache.so native/arena_cache.c || echo "arena cache not built (performance aid only)"
 if [ -f javasrv/CompileServer.java ]; then
   javac -nowarn -d build javasrv/CompileServer.java
 fi
